@@ -213,12 +213,18 @@ def labelmapRead (st : Stored) (rq : Req) (d : DType) : Except ErrKind Out := do
 
 /-! ### BINARY / FRACTIONAL -/
 
+/-- the remapped channel indices violate `OutputChannelIndex INTEGER UNIQUE` -/
+def remapDup (remap : Option (List Nat)) : Bool :=
+  match remap with
+  | some r => !(decide r.Nodup)
+  | none => false
+
 def stackRead (st : Stored) (rq : Req) (d : DType) (willRescale : Bool) : Except ErrKind Out := do
   let ic ← stackDecision willRescale rq.combine rq.rescale d.code (st.type == .fractional) (!d.isFloat)
   let interm ← (match DType.ofCode ic with | some x => .ok x | none => .error .type : Except ErrKind DType)
   let remap := remapValues rq.segs rq.combine rq.relabel
   -- `OutputChannelIndex INTEGER UNIQUE`
-  if (match remap with | some r => !(decide r.Nodup) | none => false) then .error .other else
+  if remapDup remap then .error .other else
   let chan := chanTable rq.segs remap
   if rq.combine then
     let frames ← rq.keys.mapM fun k => combineRow st.type st.mfv rq.skipOverlap interm st.npix (joinRows st.frames chan k)
@@ -324,5 +330,34 @@ structure WfLabel (st : Stored) : Prop where
   bg : st.bg = 0
   described : ∀ f ∈ st.frames, ∀ p ∈ f.pix, p = 0 ∨ p ∈ st.segNums
   fit : ∀ s ∈ st.segNums, s < 2 ^ st.bitsStored
+
+/-- segment `s` covers pixel `i` of the plane at stack value `k` (BINARY / FRACTIONAL) -/
+def covers (st : Stored) (k s i : Nat) : Prop := ∃ p, (segPlane st k s)[i]? = some p ∧ 0 < p
+
+/-- `v` is the value a combined read must give pixel `i` at stack value `k`: the largest output value among the
+requested segments covering the pixel (there is exactly one such segment unless the caller skipped the overlap
+check), 0 when none covers it -/
+def IsCombinedValue (st : Stored) (segs : List Nat) (relabel : Bool) (k i : Nat) (v : Int) : Prop :=
+  (∀ s ∈ segs, covers st k s i → outVal segs relabel s ≤ v) ∧
+  (v = 0 ∨ ∃ s ∈ segs, covers st k s i ∧ v = outVal segs relabel s)
+
+/-- no two different requested segments share a pixel of the plane at stack value `k` -/
+def NoOverlap (st : Stored) (segs : List Nat) (k : Nat) : Prop :=
+  ∀ s₁ ∈ segs, ∀ s₂ ∈ segs, s₁ ≠ s₂ → ∀ i, ¬ (covers st k s₁ i ∧ covers st k s₂ i)
+
+/-- every stored frame can be combined: 0/1 valued (BINARY), 0/MaximumFractionalValue valued (FRACTIONAL) -/
+def AllBinary (st : Stored) : Prop :=
+  ∀ f ∈ st.frames, if st.type = .fractional then st.mfv ≠ 0 ∧ ∀ p ∈ f.pix, p = 0 ∨ p = st.mfv else ∀ p ∈ f.pix, p ≤ 1
+
+/-- a well-formed BINARY / FRACTIONAL object: a (stack value, segment) pair identifies at most one frame, pixel
+values are 0/1 (BINARY) or at most MaximumFractionalValue ≤ 255 (FRACTIONAL), segment numbers are positive and every
+frame has Rows*Columns pixels -/
+structure WfStack (st : Stored) : Prop where
+  type : st.type ≠ .labelmap
+  unique : framesUnique st = true
+  range : ∀ f ∈ st.frames, ∀ p ∈ f.pix, p ≤ (if st.type = .fractional then st.mfv else 1)
+  mfv : st.type = .fractional → 1 ≤ st.mfv ∧ st.mfv ≤ 255
+  pos : ∀ s ∈ st.segNums, 0 < s
+  len : ∀ f ∈ st.frames, f.pix.length = st.npix
 
 end HdVerif.SegRead
